@@ -7,7 +7,12 @@ def setup(J):
         shards = ["p|P", "pq", "p.q", "p q", "p/q|a/../b"]
         jobs = [{"id": f"C14-names-{i}", "prop": "C14", "kind": "c14", "mode": "single", "budget": 600, "oracles": [], "events_dep": False,
                  "args": {"names": s, "tier": tier}} for i, s in enumerate(shards)]
+        # parameter / tag values that differ only in characters outside the path alphabet
+        jobs.append({"id": "C14-values-outside-path-alphabet", "prop": "C14", "kind": "c14", "mode": "single", "budget": 600, "oracles": [], "events_dep": False,
+                     "args": {"names": "p", "tier": tier, "vals": "<|>"}})
+        jobs.append({"id": "C14-values-blank-vs-plus", "prop": "C14", "kind": "c14", "mode": "single", "budget": 600, "oracles": [], "events_dep": False,
+                     "args": {"names": "p", "tier": tier, "vals": "a b|a+b"}})
         return {"level": "exploration", "stages": [lambda ctx, prev: jobs],
-                "rule": "exhaustive enumeration of task identities over a small alphabet (process names, also with blanks, capitals and slashes, x 0-2 in-ports with paths incl. a/b vs ab x 0-2 parameters x 0-2 tags x sub-stream member lists of length 0-2), each built with the public constructor NewTask; ALL pairs compared by grouping on TempDir(); + names of every length 180..262; + same identity under every other map-iteration order; distinct_nontrivial = number of distinct temp-dir values",
+                "rule": "exhaustive enumeration of task identities over a small alphabet (process names, also with blanks, capitals and slashes, x 0-2 in-ports with paths incl. a/b vs ab x 0-2 parameters x 0-2 tags (values also outside the path alphabet: '<' vs '>', 'a b' vs 'a+b') x sub-stream member lists of length 0-2), each built with the public constructor NewTask; ALL pairs compared by grouping on TempDir(); + names of every length 180..262; + same identity under every other map-iteration order; distinct_nontrivial = number of distinct temp-dir values",
                 "assumptions": ["identities outside the alphabet are not covered (no sampling of 'random long' values: outside the technique)", "collisions are classified 'concat-ambiguity' when the two identities' pieces written without separators coincide (the known defect) and 'other' otherwise"],
                 "distinct_nontrivial_fn": lambda rs: sum((r.get("extra") or {}).get("distinct_temp_dirs", 0) for r in rs)}
